@@ -129,7 +129,7 @@ class StoredEditsNative(Contract):
     symbolic = False
     has_native = True
     props = ("C03",)
-    bounded_scope = "an attached file renamed in a later session; part labels assigned to a stored curve; values of stored float / integer / boolean / referenced / text / file / comment data assigned again once or twice (same and later sessions); value map and colour map re-assigned 1-4 times on a stored type (same session and across sessions, fresh dictionaries and the earlier dictionary / map object edited in place); concatenated drillholes renamed / re-planned / re-costed / re-surveyed in a session that does nothing else (both format versions)"
+    bounded_scope = "an attached file renamed in a later session; part labels assigned to a stored curve; values of stored float / integer / boolean / referenced / text / file / comment data assigned again once or twice (same and later sessions); value map and colour map re-assigned 1-4 times on a stored type (same session and across sessions, fresh dictionaries and the earlier dictionary / map object edited in place); concatenated drillholes renamed / re-planned / re-costed / re-surveyed in a session that does nothing else (both format versions); a stored log of a concatenated drillhole given new values in one session and another name in a later one, before or after its values were read there"
 
     def native_cases(self, tier, rng):
         for n in (1, 2, 3, 4):
@@ -151,11 +151,57 @@ class StoredEditsNative(Contract):
             for read_back in (False, True):
                 yield {"kind": "curve-parts", "when": when, "read_back": read_back}
         for version in (2.0, 2.1):
+            for read_first in (False, True):
+                for text in (False, True):
+                    yield {"kind": "concatenated-data-renamed", "version": version, "read_first": read_first, "text": text}
             for attrs in (["name"], ["planning", "cost"], ["name", "end_of_hole"], ["collar"], ["surveys"], ["surveys", "name"]):
                 yield {"kind": "concatenated-scalars", "version": version, "attrs": attrs}
             # coordinates whose shortest text uses an exponent (very small, very large) or no decimal point
             for collar in ([1.5e-07, -3e-05, 1e17], [3e-07, 2.0, 5.0], [-0.0, 1e-10, 123456789.125]):
                 yield {"kind": "concatenated-scalars", "version": version, "attrs": ["collar"], "collar": collar}
+
+    def _concatenated_data_renamed(self, case, path):
+        """a stored log of a hole in a drillhole group gets new values in one session and another name in a later one
+        (with or without its values having been read in that session); a neighbour hole has a log of the same name"""
+        from geoh5py.groups import DrillholeGroup
+        from geoh5py.objects import Drillhole
+        from geoh5py.workspace import Workspace
+
+        depths = np.arange(7.0)
+        first, second, other = np.linspace(1.0, 2.0, 7), np.linspace(10.0, 70.0, 7), np.linspace(-3.0, 3.0, 7)
+        with Workspace.create(path, version=case["version"]) as ws:
+            g = DrillholeGroup.create(ws, name="DH")
+            for name, vals in (("A", first), ("B", other)):
+                h = Drillhole.create(ws, name=name, parent=g, collar=np.r_[0.0, 0.0, 0.0], surveys=np.c_[np.r_[0.0, 50.0], np.zeros(2), -90.0 * np.ones(2)])
+                h.add_data({"Au": {"depth": depths, "values": vals}})
+                if case["text"]:
+                    h.add_data({"lith": {"depth": depths, "values": np.array([f"{name}{i}" for i in range(7)]), "type": "text"}})
+        with Workspace(path) as ws:
+            ws.get_entity("A")[0].get_data("Au")[0].values = second.copy()
+        with Workspace(path) as ws:
+            hole = ws.get_entity("A")[0]
+            for old, new in (("Au", "Gold"),) + ((("lith", "rock"),) if case["text"] else ()):
+                log = hole.get_data(old)[0]
+                if case["read_first"]:
+                    _ = log.values
+                log.name = new
+        with Workspace(path, mode="r") as ws:
+            hole = ws.get_entity("A")[0]
+            got = hole.get_data("Gold")
+            if len(got) != 1 or got[0] is None:
+                return f"a stored log renamed to 'Gold': a later reader finds the logs {hole.get_data_list()} ({case})"
+            v = got[0].values
+            if v is None or not np.allclose(np.asarray(v, dtype=float), second):
+                return f"a stored log renamed {'after' if case['read_first'] else 'before'} its values were read in that session: a later reader sees {None if v is None else np.asarray(v).tolist()} under the new name, {second.tolist()} had been assigned ({case})"
+            if case["text"]:
+                t = hole.get_data("rock")
+                tv = None if (not t or t[0] is None) else t[0].values
+                if tv is None or [str(x) for x in np.atleast_1d(tv)] != [f"A{i}" for i in range(7)]:
+                    return f"a stored text log renamed to 'rock': a later reader sees {tv} ({case})"
+            nb = ws.get_entity("B")[0].get_data("Au")[0].values
+            if nb is None or not np.allclose(np.asarray(nb, dtype=float), other):
+                return f"renaming a log of hole A changed the log of the same name on hole B: {nb} ({case})"
+        return None
 
     def native_check(self, case):
         import os
